@@ -379,6 +379,129 @@ def drive_smiles(text):
     return t
 
 
+# ---------------------------------------------------------------- cube files (extension: CubeFile.tla)
+CUBE_MC_CFG = """SPECIFICATION Spec
+CONSTANTS AsBuiltShift = %s Depth = 4
+INVARIANT InvRelGeometry
+INVARIANT InvGridKept
+INVARIANT InvReturn
+INVARIANT InvGridPoint
+CHECK_DEADLOCK FALSE
+"""
+BOHR = 0.52917749
+
+
+def _fix(v, dec):
+    a = abs(v)
+    return ("-" if v < 0 else "") + "%d.%0*d" % (a // 10 ** dec, dec, a % 10 ** dec)
+
+
+def cube_recipes(rng, count):
+    out = []
+    for _ in range(count):
+        n = [rng.randint(1, 4), rng.randint(1, 4), rng.randint(1, 8)]
+        axes = []
+        for k in range(3):
+            v = [0, 0, 0]
+            v[k] = rng.randint(100000, 900000)
+            if rng.random() < 0.3:
+                v[(k + 1) % 3] = rng.randint(-200000, 200000)
+            axes.append({"n": n[k], "v": v})
+        atoms = [{"zel": rng.choice([1, 6, 7, 8, 9, 16, 17, 26, 35]), "p": [rng.randint(-9000000, 9000000) for _ in range(3)]}
+                 for _ in range(rng.randint(1, 6))]
+        out.append({"title": rng.choice(["water density", "t", "Cube file generated by verif", "a  b"]),
+                    "subtitle": rng.choice(["OUTER LOOP: X, MIDDLE LOOP: Y, INNER LOOP: Z", "second line", "rho"]),
+                    "origin": [rng.randint(-5000000, 5000000) for _ in range(3)], "axes": axes, "atoms": atoms,
+                    "data": [rng.randint(-99999999, 99999999) for _ in range(n[0] * n[1] * n[2])],
+                    "shifts": [[rng.randint(-5000000, 5000000) for _ in range(3)] for _ in range(rng.randint(0, 3))],
+                    "via": rng.choice(["string", "file"])})
+        if rng.random() < 0.2 and out[-1]["shifts"]:
+            out[-1]["shifts"].append(list(out[-1]["origin"]))           # and back to where it was
+    return out
+
+
+def drive_cube(rec):
+    import numpy as np
+    from chmpy.fmt.cube import CubeData
+    enc = lambda s_: [ord(c) for c in s_]  # noqa: E731
+    f6 = lambda v: _fix(v, 6).rjust(12)  # noqa: E731
+    lines = [rec["title"], rec["subtitle"], str(len(rec["atoms"])).rjust(5) + "".join(f6(x) for x in rec["origin"])]
+    for ax in rec["axes"]:
+        lines.append(str(ax["n"]).rjust(5) + "".join(f6(x) for x in ax["v"]))
+    for a in rec["atoms"]:
+        lines.append(str(a["zel"]).rjust(5) + f6(a["zel"] * 1000000) + "".join(f6(x) for x in a["p"]))
+    nz = rec["axes"][2]["n"]
+    for run in range(rec["axes"][0]["n"] * rec["axes"][1]["n"]):
+        vals = rec["data"][run * nz:(run + 1) * nz]
+        for q in range(0, nz, 6):
+            lines.append("".join(_fix(v, 5).rjust(13) for v in vals[q:q + 6]))
+    cube = {"title": enc(rec["title"]), "subtitle": enc(rec["subtitle"]), "origin": rec["origin"], "axes": rec["axes"],
+            "atoms": rec["atoms"], "data": rec["data"]}
+    def fresh():
+        return {"exc": "", "off": False, "origin": [0, 0, 0], "axes": [], "atoms": [], "molecule": [], "data": [], "grid": []}
+    t = {"cube": cube, "lines": [enc(ln) for ln in lines], "loaded": fresh(), "titles": [[], []], "events": [],
+         "meta": {"recipe": rec, "source": "spec-written-cube", "nontrivial": True,
+                  "impl_call": "CubeData(%s) %dx%dx%d, %d atoms, %d origin shifts" % (rec["via"], rec["axes"][0]["n"], rec["axes"][1]["n"], nz, len(rec["atoms"]), len(rec["shifts"]))}}
+    grng = random.Random(len(lines) * 7919 + rec["data"][0])
+    state = {"off": False}
+
+    def to_int(x, unit):
+        v = float(x) / unit
+        r = int(round(v))
+        if abs(v - r) > 1e-3:
+            state["off"] = True
+        return r
+
+    def observe(c):
+        o = fresh()
+        state["off"] = False
+        try:
+            o["origin"] = [to_int(x, BOHR * 1e-6) for x in c.volume_origin]
+            o["axes"] = [{"n": int(getattr(c, "n" + ax)), "v": [to_int(x, BOHR * 1e-6) for x in getattr(c, ax + "_basis")]} for ax in "xyz"]
+            o["atoms"] = [{"zel": int(z), "p": [to_int(x, BOHR * 1e-6) for x in p]} for z, p in zip(c.elements, c.positions)]
+            m = c.molecule()
+            o["molecule"] = [{"zel": int(z), "p": [to_int(x, BOHR * 1e-6) for x in p]} for z, p in zip(m.atomic_numbers, m.positions)]
+            o["data"] = [to_int(x, 1e-5) for x in c.data]
+            xyz = np.asarray(c.xyz)
+            for _ in range(4):
+                i, j, k = (grng.randrange(int(c.nx)), grng.randrange(int(c.ny)), grng.randrange(int(c.nz)))
+                flat = (i * int(c.ny) + j) * int(c.nz) + k
+                o["grid"].append({"i": i, "j": j, "k": k, "flat": flat + 1, "p": [to_int(x, BOHR * 1e-6) for x in xyz[flat]]})
+            o["off"] = state["off"]
+        except Exception as e:  # noqa: BLE001
+            o["exc"] = type(e).__name__
+        return o
+
+    d = scratch()
+    try:
+        text = "\n".join(lines) + "\n"
+        try:
+            if rec["via"] == "file":
+                p_ = os.path.join(d, "rho.cube")
+                with open(p_, "w") as fh:
+                    fh.write(text)
+                c = CubeData(p_)
+            else:
+                c = CubeData.from_string(text)
+        except Exception as e:  # noqa: BLE001
+            t["loaded"]["exc"] = type(e).__name__
+            return t
+        t["loaded"] = observe(c)
+        t["titles"] = [enc(c.title) if isinstance(c.title, str) else enc("<not a string>"),
+                       enc(c.subtitle) if isinstance(c.subtitle, str) else enc("<not a string>")]
+        for to in rec["shifts"]:
+            ev = {"to": to, "obs": fresh()}
+            try:
+                c.shift_origin_to(np.array([x * 1e-6 * BOHR for x in to]))
+                ev["obs"] = observe(c)
+            except Exception as e:  # noqa: BLE001
+                ev["obs"]["exc"] = type(e).__name__
+            t["events"].append(ev)
+    finally:
+        shutil.rmtree(d, ignore_errors=True)
+    return t
+
+
 def drive(recipe):
     k = recipe["k"]
     d = scratch()
@@ -803,6 +926,14 @@ def run(ctx, explain=False):
     words += [random_smiles(srng, srng.randint(3, 30)) for _ in range(ctx.pick(1500, 20000))]
     straces = pool_map(drive_smiles, sorted(set(words)), procs=1 if ctx.quick else None)
     ctx.validate("trace/Trace_Smiles.tla", straces, consts="  AsBuilt = FALSE", name="Trace_Smiles (extension)", extension=True, timeout=1800)
+    # beyond the listed property: cube files and the CubeData object (CubeFile.tla; the specification writes the file, then a
+    # history of origin shifts is stepped through on the real object)
+    ctx.model_check("mc/MC_Cube.tla", CUBE_MC_CFG % "FALSE", name="MC_Cube", timeout=600, extension=True)
+    if explain:
+        r3 = tlc.run("mc/MC_Cube.tla", CUBE_MC_CFG % "TRUE", timeout=600)
+        print("as-built CubeData.shift_origin_to (atoms moved the opposite way): first invariant TLC finds violated: %s" % r3.violated)
+    ctraces = pool_map(drive_cube, cube_recipes(random.Random(ctx.seed * 211 + 3), ctx.pick(120, 2000)), procs=1 if ctx.quick else None)
+    ctx.validate("trace/Trace_Cube.tla", ctraces, consts="  AsBuiltShift = FALSE", name="Trace_Cube (extension)", extension=True, timeout=1800)
     kinds = {}
     for t in traces:
         kinds[t["k"]] = kinds.get(t["k"], 0) + 1
